@@ -134,6 +134,65 @@ def _work(chunk):
     return dict(n=n, accepted=acc, skipped=skipped, viol=out)
 
 
+# ---- run-time behaviour of old-version simulators beyond the fault-free time-based case ----------
+def runtime_cases():
+    out = []
+    for v in (None, "2", "2.2", "2.10", "3.0"):
+        for tr in ("local", "mem"):
+            for stype in ("event-based", "hybrid"):
+                out.append(dict(kind="announced-type", version=v, transport=tr, stype=stype))
+            for exc in ("ValueError", "KeyError"):
+                out.append(dict(kind="step-raises", version=v, transport=tr, exc=exc))
+    return out
+
+
+def judge_runtime(c):
+    v = c["version"]
+    old = vlist(v) < [3]
+    cls = "Ver_kw_opt" if old else "Ver_tr_a3"
+    out = []
+
+    def add(kind, msg):
+        out.append(dict(prop="C15", kind=kind, cls=None, msg=f"{msg}: {c}", case=dict(c, runtime=True)))
+    if c["kind"] == "announced-type":
+        # an old simulator that DOES announce its type is scheduled according to it
+        s = dict(sid="S", type=c["stype"], cls=cls, api_version=v, omit_type=False,
+                 init_event=(1 if c["stype"] == "event-based" else None), next=[2], next_default=None)
+        scen = dict(until=5, sims=[s], conns=[])
+        want = [1, 3] if c["stype"] == "event-based" else [0, 2]
+    else:
+        s = dict(sid="S", type="time-based", step=1, cls=cls, api_version=v, omit_type=False,
+                 raise_in_step={"1": c["exc"]})
+        scen = dict(until=4, sims=[s], conns=[])
+        want = [0, 1]
+    run = Run(scen, dict(gates=(), transport=c["transport"]), None)
+    with contextlib.redirect_stdout(io.StringIO()):
+        res = run.execute()
+    steps = [e[3] for e in run.trace if e[0] == "B"]
+    ar = sorted({e[3] for e in run.trace if e[0] == "A"} | (
+        {3} if any(e[0] == "B" and e[5] is not None for e in run.trace) and old else set()))
+    if steps != want:
+        add("old-simulator-scheduled-differently", f"steps at {steps}, expected {want} (run -> {res[:2]})")
+    if old and any(e[0] == "B" and e[5] is not None for e in run.trace):
+        add("wrong-step-arity", "an old-version simulator received a step request with max_advance")
+    if c["kind"] == "announced-type" and res[0] != "ok":
+        add("run-failed", f"run() -> {res}")
+    if c["kind"] == "step-raises":
+        logged = any(lv == "ERROR" for lv, _ in run.logs)
+        if res[0] == "ok" and not (c["transport"] == "mem" and logged):
+            # (a remote simulator's failure reply is logged and run() returns)
+            add("error-of-old-simulator-swallowed", "run() returned normally although step 1 raised")
+    return out
+
+
+def _runtime_work(c):
+    try:
+        return dict(viol=judge_runtime(c))
+    except Exception as e:  # noqa: BLE001
+        import traceback
+        return dict(error=repr(e)[:200] + traceback.format_exc()[-700:])
+
+
 # ---- two classes with the same __name__, started in one process in both orders ----------------
 def same_name_cases():
     out = []
@@ -235,6 +294,11 @@ def _view_work(job):
 
 def replay(doc):
     c = dict(doc["case"])
+    if c.pop("runtime", None):
+        v = judge_runtime(c)
+        for x in v:
+            print("REPRODUCED", x["kind"], x["msg"][:400])
+        return 1 if v else 0
     if c.pop("same_name", None):
         v = judge_same_name(c)
         for x in v:
@@ -267,6 +331,16 @@ def check(prop, tier):
                 return 2
             for k in tot:
                 tot[k] += res[k]
+            for v in res["viol"]:
+                kinds[v["kind"]] = kinds.get(v["kind"], 0) + 1
+                if kinds[v["kind"]] <= 5:
+                    rep.report(v, dict(kind="call", module="mc.enum_c15", case=v["case"]))
+        for res in pool.imap_unordered(_runtime_work, runtime_cases(), chunksize=1):
+            if res.get("error"):
+                print("MACHINERY-ERROR", res["error"])
+                return 2
+            tot["n"] += 1
+            tot["accepted"] += 1
             for v in res["viol"]:
                 kinds[v["kind"]] = kinds.get(v["kind"], 0) + 1
                 if kinds[v["kind"]] <= 5:
